@@ -1,4 +1,8 @@
-"""Per-property configuration of the checks."""
+"""Per-property configuration of the checks: one JSON file per property in
+/verif/props (see AGENT_GUIDE.md for the keys)."""
+import glob, json, os
+
+ROOT = os.path.dirname(os.path.dirname(os.path.abspath(__file__)))
 
 GENERIC_TRUSTED = [
     "Coq 8.16.1 kernel (coqc; vm_compute used for witnesses and trace replay; no native_compute)",
@@ -7,36 +11,18 @@ GENERIC_TRUSTED = [
     "Go toolchain, bbolt/walletdb (atomic durable commits), OS file semantics",
 ]
 
-REGISTRY = {
-    "C13": {
-        "harness": "c13",
-        "coq_dir": "C13",
-        "properties_files": ["C13/Properties.v"],
-        "level": "proof",
-        "trusted": [
-            "net.SplitHostPort / net.ParseIP (textual parsing) are stdlib and not modelled: the model starts from ParseIP's 16-byte result",
-            "time.Now() is read by the store itself; the harness brackets each call and repeats ambiguous ones",
-            "enforcement (ban + disconnect on misbehaviour, refusing banned addresses) is not in this model",
-        ],
-        "assumptions": [
-            "clock readings along one history are non-decreasing (hypothesis `monotone` of C13_status_exact)",
-        ],
-    },
-}
+REGISTRY = {}
+MANIFEST_TEXT = {}
+for _f in sorted(glob.glob(os.path.join(ROOT, "props", "C*.json"))):
+    _c = json.load(open(_f))
+    _p = os.path.basename(_f)[:-5]
+    MANIFEST_TEXT[_p] = _c.pop("manifest")
+    REGISTRY[_p] = _c
 
-# Properties not (yet) claimed, each with a one-line reason.
+# Properties not claimed, each with a one-line reason.
 NOT_APPLICABLE = {
     "C18": "data-race freedom is defined over the memory accesses of the compiled Go program; no executable Gallina model tied by observable behaviour can express it (DESIGN.md §4 C18); using the race detector would be switching technique",
 }
 for _p in ["C%02d" % i for i in range(1, 20)]:
     if _p not in REGISTRY and _p not in NOT_APPLICABLE:
-        NOT_APPLICABLE[_p] = "not yet built in this round: model, theorems and correspondence harness are designed in DESIGN.md §4 but no check is registered yet"
-
-MANIFEST_TEXT = {
-    "C13": {
-        "text": "Machine-checked theorems (Coq) over an executable model of banman: for every history of ban/unban/status/reopen with non-decreasing clock, a status answer is a function of the history (banned with the recorded reason strictly before the whole-second expiry of the last un-lifted ban, not banned otherwise, same across reopen); key codec round-trips, is injective on canonical networks and maps the 4-byte and IPv4-mapped forms of one address to one record. The model is tied to the code by replaying real bbolt-backed store traces, ParseIPNet and codec tables in Coq on every run.",
-        "note": "Trusted: Coq kernel, bbolt durability, net.ParseIP/SplitHostPort (spellings are exercised by the harness, not proved), harness clock bracketing. Enforcement half of C13 (ban+disconnect on misbehaviour) is exercised by the C03/C06 decision models and netsim, not by this model. Partial on that half.",
-        "technique": "Coq proof (history-determined refinement invariant) + differential trace replay by vm_compute",
-        "design_ref": "DESIGN.md §4 C13",
-    },
-}
+        NOT_APPLICABLE[_p] = "not yet built: model, theorems and correspondence harness are designed in DESIGN.md §4 but no check is registered yet"
